@@ -505,6 +505,14 @@ def r10_12_no_wrapping_time_arithmetic_on_date_times(ctx: Ctx) -> RuleResult:
             if isinstance(f.node, ast.Lambda):
                 continue
             for n in own_nodes(f.node):
+                # `self.__time + period` / `self.time_of_day.plus(period)`: the operator forms of the same wrapping arithmetic
+                timeish = r"(^self\.__time$|^self\._time$|\.time_of_day$|^self\.__local_time$|_LocalDateTime__time$)"
+                if isinstance(n, ast.BinOp) and isinstance(n.op, (ast.Add, ast.Sub)) and re.search(timeish, unparse(n.left)) and not re.search(timeish, unparse(n.right)):
+                    bad = (f, n)
+                    continue
+                if isinstance(n, ast.Call) and isinstance(n.func, ast.Attribute) and n.func.attr in ("plus", "minus") and re.search(timeish, unparse(n.func.value)):
+                    bad = (f, n)
+                    continue
                 if not (isinstance(n, ast.Call) and isinstance(n.func, ast.Attribute)):
                     continue
                 a = n.func.attr
@@ -539,4 +547,100 @@ def r10_13_time_field_units(ctx: Ctx) -> RuleResult:
             rr.ok({"field": name, "unit_ns": int(u.lo), "units_per_day": int(d.lo)})
         else:
             rr.fail(f"_TimePeriodField.{name}", f"nanoseconds per unit {u} x units per day {d} is not one day ({npd} ns): amounts are reduced modulo the wrong number of units", "pyoda_time/fields/_time_period_field.py")
+    return rr
+
+
+# ------------------------------------------------------------------------------------------- R10.14 borrow / carry across years
+
+LENGTH_QUERIES = {"_get_days_in_year", "_get_months_in_year", "get_days_in_year", "get_months_in_year"}
+# borrow loops that count from the END of the year (the remaining amount is negative and relative to the year's end): stepping back
+# adds the length of the year being left.  function -> reason
+END_BASED_BORROW = {
+    "_HebrewYearMonthDayCalculator._add_months": "the backward branch first re-bases the month count on the end of the year (`months -= months_in_year(year) - month`)",
+}
+
+
+def _counter_delta(e: ast.expr, v: str) -> int | None:
+    """e == v + k for an integer constant k -> k."""
+    if isinstance(e, ast.Name) and e.id == v:
+        return 0
+    if isinstance(e, ast.BinOp) and isinstance(e.op, (ast.Add, ast.Sub)) and isinstance(e.left, ast.Name) and e.left.id == v and isinstance(e.right, ast.Constant) and isinstance(e.right.value, int):
+        return e.right.value if isinstance(e.op, ast.Add) else -e.right.value
+    return None
+
+
+@rule("C10")
+def r10_14_borrow_and_carry_use_the_right_year(ctx: Ctx) -> RuleResult:
+    """Day-of-year / month-of-year arithmetic that crosses a year boundary steps a year counter by one and adjusts the running
+    amount by the length of a year.  Counting from the start of the year, a borrow (`year -= 1`) must add the length of the year
+    it lands in and a carry (`year += 1`) must subtract the length of the year it leaves - evaluated symbolically in each block:
+    the argument of the length query, as an offset from the counter's value at block entry, against the counter's final offset.
+    A reordering that leaves `year - 1` in the query after the decrement asks about year - 2."""
+    rr = RuleResult("R10.14", "year-boundary borrow / carry: the running amount is adjusted by the length of the year the step lands in (borrow) or leaves (carry), as symbolic offsets of the year counter within each block", min_instances=5)
+    M = ctx.M
+
+    def blocks(node: ast.AST):
+        for n in ast.walk(node):
+            for fld in ("body", "orelse"):
+                b = getattr(n, fld, None)
+                if isinstance(b, list) and b and isinstance(b[0], ast.stmt):
+                    yield b
+
+    for f in sorted(set(M.func_of_node.values()), key=lambda x: x.qual):
+        if isinstance(f.node, ast.Lambda) or "_compatibility" in f.mod.rel:
+            continue
+        if not any(isinstance(n, ast.Call) and isinstance(n.func, ast.Attribute) and n.func.attr in LENGTH_QUERIES for n in own_nodes(f.node)):
+            continue
+        # latest definition of locals holding a year length (days_in_year = calc._get_days_in_year(year))
+        for blk in blocks(f.node):
+            counters = {s.target.id for s in blk if isinstance(s, ast.AugAssign) and isinstance(s.target, ast.Name) and isinstance(s.value, ast.Constant) and s.value.value == 1}
+            for v in sorted(counters):
+                off = 0
+                recs: list[tuple[str, int, ast.stmt]] = []
+                local_len: dict[str, int] = {}
+                # definitions before the block (in the function) of locals assigned from a length query of v: offset relative to block entry
+                for s in own_nodes(f.node):
+                    if isinstance(s, ast.Assign) and len(s.targets) == 1 and isinstance(s.targets[0], ast.Name) and s.lineno < blk[0].lineno:
+                        c = s.value
+                        if isinstance(c, ast.Call) and isinstance(c.func, ast.Attribute) and c.func.attr in LENGTH_QUERIES and c.args:
+                            d = _counter_delta(c.args[0], v)
+                            if d is not None:
+                                local_len[s.targets[0].id] = d
+                for s in blk:
+                    if isinstance(s, ast.AugAssign) and isinstance(s.target, ast.Name) and s.target.id == v and isinstance(s.value, ast.Constant) and s.value.value == 1:
+                        off += 1 if isinstance(s.op, ast.Add) else -1 if isinstance(s.op, ast.Sub) else 0
+                        continue
+                    if isinstance(s, ast.Assign) and len(s.targets) == 1 and isinstance(s.targets[0], ast.Name):
+                        c = s.value
+                        if isinstance(c, ast.Call) and isinstance(c.func, ast.Attribute) and c.func.attr in LENGTH_QUERIES and c.args:
+                            d = _counter_delta(c.args[0], v)
+                            if d is not None:
+                                local_len[s.targets[0].id] = off + d
+                        continue
+                    if isinstance(s, ast.AugAssign) and isinstance(s.op, (ast.Add, ast.Sub)) and isinstance(s.target, ast.Name) and s.target.id != v:
+                        val = s.value
+                        d = None
+                        if isinstance(val, ast.Call) and isinstance(val.func, ast.Attribute) and val.func.attr in LENGTH_QUERIES and val.args:
+                            k = _counter_delta(val.args[0], v)
+                            d = off + k if k is not None else None
+                        elif isinstance(val, ast.Name) and val.id in local_len:
+                            d = local_len[val.id]
+                        if d is not None:
+                            recs.append(("+" if isinstance(s.op, ast.Add) else "-", d, s))
+                if off == 0 or not recs:
+                    continue
+                for sign, d, s in recs:
+                    rr.inst()
+                    if off < 0:
+                        want = off + 1 if f.qual in END_BASED_BORROW else off
+                        ok = sign == "+" and d == want
+                        kind = "borrow"
+                    else:
+                        want = off - 1
+                        ok = sign == "-" and d == want
+                        kind = "carry"
+                    if ok:
+                        rr.ok({"function": f.qual, "step": f"{v} {off:+d}", kind: f"length of {v}{want:+d} relative to block entry"})
+                    else:
+                        rr.fail(f.qual, f"`{unparse(s)[:80]}`: the block steps `{v}` by {off:+d} but adjusts the amount by the length of `{v}{d:+d}` (relative to the block's entry value); a {kind} needs the length of `{v}{want:+d}`", ctx.loc(f, s))
     return rr
